@@ -22,6 +22,18 @@ CLAIMED["C14"] = dict(
          "from its real body), uuid5 and float formatting injective, math.ceil/floor. Stand-in segment_lattice is bounded.",
     technique=TECH + "; first-exit loop summarisation; lemmas over the contract",
 )
+CLAIMED["C03"] = dict(
+    level="proof",
+    text="For each of the nine geometry classes the construction contract is executed over the real validator bodies "
+         "(loops summarised, unpacking arity as implicit ValueError) and proved equivalent, in both directions, to the "
+         "validity spec written from the statement; stored coordinates equal the normal form, which is valid and a "
+         "fixpoint; geometry_validate's real body is proved per tag for dict and attribute modes (class named by the tag, "
+         "ValueError iff invalid or unknown tag); tag/mapping tables from the ASTs.",
+    note="Trusted: engine, solvers, the pydantic v2 construction contract (type coercion to the annotated nesting, "
+         "validator order, ValueError->ValidationError, model_validate == constructor) and json.loads; the JSON mode, wrong "
+         "nesting and the four entry points' agreement are checked by the bounded stand-in geometry_entry_points only.",
+    technique=TECH + "; quantified nested-list encoding (lists as functions of index tuples)",
+)
 ALL = [f"C{n:02d}" for n in range(1, 21)]
 NOT_APPLICABLE = {p: "check not built yet in this session (work in progress; see DESIGN.md section 12 build order)"
                   for p in ALL if p not in CLAIMED}
